@@ -34,7 +34,7 @@ func MX() []*descriptorpb.FileDescriptorProto {
 	other.Rep("ol", 5, S(Sint64))
 
 	// --- second file of package mx
-	f2 := NewFile("mx/mx2.proto", "mx", GenRoot+"mx")
+	f2 := NewFile("mx/mx2.proto", "mx", GenRoot+"mx", "mxo/other.proto")
 	color := f2.Enum("Color", "COLOR_ZERO", 0, "RED", 1, "BLUE", 5, "NEGATIVE", -3)
 	// numbers 0..2 without holes but declared out of number order; an enum with aliases
 	dense := f2.Enum("Dense", "DENSE_ZERO", 0, "DENSE_TWO", 2, "DENSE_ONE", 1)
@@ -238,7 +238,7 @@ func MX() []*descriptorpb.FileDescriptorProto {
 	enums.Field("qi", 9, M(qitem.Full()))
 	enums.Map("qm", 10, Int32, E(qkind))
 
-	anys := f.Msg("Anys") // several Any values in one message, early in the draw order
+	anys := f.Msg("Anys")                      // several Any values in one message, early in the draw order
 	hinted := anys.Field("hinted", 4, M(anyT)) // declared first: drawn first
 	hinted.Options = &descriptorpb.FieldOptions{}
 	proto.SetExtension(hinted.Options, cosmos_proto.E_AcceptsInterface, "verif.Iface")
@@ -266,6 +266,34 @@ func MX() []*descriptorpb.FileDescriptorProto {
 	ops.OneofField("o", "os", 12, S(String))
 	ops.OneofField("o", "ol", 13, M(leaf.Full()))
 	ops.OneofField("o", "ob", 14, S(Bytes))
+
+	// services: several methods whose request and response types all differ (own file, second file, other package,
+	// well-known type), streaming flags in every combination; a second service after it
+	mth := func(name, in, out string, cs, ss bool) *descriptorpb.MethodDescriptorProto {
+		m := &descriptorpb.MethodDescriptorProto{Name: proto.String(name), InputType: proto.String(in), OutputType: proto.String(out)}
+		if cs {
+			m.ClientStreaming = proto.Bool(true)
+		}
+		if ss {
+			m.ServerStreaming = proto.Bool(true)
+		}
+		return m
+	}
+	f.P.Service = append(f.P.Service,
+		&descriptorpb.ServiceDescriptorProto{Name: proto.String("Svc"), Method: []*descriptorpb.MethodDescriptorProto{
+			mth("One", leaf.Full(), chain.Full(), false, false),
+			mth("Two", sing.Full(), wide.Full(), false, true),
+			mth("Three", sec.Full(), other.Full(), true, false),
+			mth("Four", ".google.protobuf.Empty", ops.Full(), true, true),
+		}},
+		&descriptorpb.ServiceDescriptorProto{Name: proto.String("Svc2"), Method: []*descriptorpb.MethodDescriptorProto{
+			mth("Only", ops.Full(), leaf.Full(), false, false),
+		}})
+	f2.P.Service = append(f2.P.Service,
+		&descriptorpb.ServiceDescriptorProto{Name: proto.String("SecSvc"), Method: []*descriptorpb.MethodDescriptorProto{
+			mth("A", sec.Full(), sec.Full(), false, false),
+			mth("B", other.Full(), sec.Full(), false, false),
+		}})
 
 	return []*descriptorpb.FileDescriptorProto{o.P, f2.P, f.P}
 }
